@@ -1,8 +1,8 @@
 """C07 A shared downlink serves every consumer a complete, ordered session."""
 import re
-from mirlib import AnchorMissing, describe_call, describe_operand, describe_place, describe_rvalue, dom_guards, guards, _suffix_match
+from mirlib import AnchorMissing, describe_call, describe_operand, describe_place, describe_rvalue, dom_guards, guards, _suffix_match, op_place
 from rules import uplinks
-from rules.common import named_argument_rule, aggregates, where, role_by_type, guard_flags
+from rules.common import named_argument_rule, aggregates, where, role_by_type, guard_flags, in_variant
 
 META = {
     "explanation": (
@@ -98,6 +98,60 @@ def _write_task_roles(wt):
     return roles
 
 
+_PURE_READS = {"is_empty", "len", "contains", "contains_key", "eq", "ne", "lt", "le", "gt", "ge", "not", "is_some", "is_none", "is_ok", "is_err", "get", "load",
+               "clone", "deref", "deref_mut", "borrow", "as_ref", "as_mut", "unwrap_or", "unwrap_or_default", "unwrap", "copied", "cloned", "cmp", "partial_cmp", "into", "from",
+               "count", "any", "all", "iter", "first", "last", "checked_sub", "saturating_sub", "checked_add", "wrapping_add", "wrapping_sub", "get_mut", "index"}
+
+
+def _data_deps(b, operand, cap=400):
+    """Locals whose value flows (as data: copies, fields of tuples by position, operators, pure reads such as `v.is_empty()` / `n.load()`) into `operand`.
+    A flag that is only ever assigned constants has no data dependences: what decides it are the tests on the way to the assignments, which dom_guards
+    reports for a flag decided in one place."""
+    seen, out = set(), set()
+    work = [op_place(operand)] if op_place(operand) is not None else []
+    while work and cap > 0:
+        cap -= 1
+        p_ = work.pop()
+        key = (p_[0], repr(p_[1]))
+        if key in seen:
+            continue
+        seen.add(key)
+        out.add(p_[0])
+        fld = [x for x in p_[1] if isinstance(x, list) and x[0] == "f"]
+        for df in b.defs.get(p_[0], ()):
+            if df[0] in ("assign", "part"):
+                rv = df[3] if df[0] == "assign" else df[4]
+                k = rv[0]
+                ops = []
+                if k == "use":
+                    ops = [rv[1]]
+                elif k == "ref":
+                    work.append(rv[2])
+                elif k == "cast":
+                    ops = [rv[2]]
+                elif k == "bin":
+                    ops = [rv[2], rv[3]]
+                elif k == "un":
+                    ops = [rv[2]]
+                elif k == "disc":
+                    work.append(rv[1])
+                elif k == "agg":
+                    if rv[1].get("tuple") and fld and isinstance(fld[0][1], int) and fld[0][1] < len(rv[2]) and df[0] == "assign":
+                        ops = [rv[2][fld[0][1]]]
+                    else:
+                        ops = list(rv[2])
+                for o in ops:
+                    if op_place(o) is not None:
+                        work.append(op_place(o))
+            elif df[0] in ("call", "partcall"):
+                c = df[2]
+                if (c.name in _PURE_READS or c.via_name in _PURE_READS) and not c.exp:
+                    for a in c.args:
+                        if op_place(a) is not None:
+                            work.append(op_place(a))
+    return out
+
+
 def run(ctx):
     rt = ctx.crate(RT)
     rd = ctx.saw(_body(rt, "downlink::read_task::{closure#0}"))
@@ -145,6 +199,7 @@ def run(ctx):
                             for df in b.defs.get(op[1][0], ()):
                                 if df[0] == "assign" and df[3][0] == "use" and df[3][1][0] == "k" and df[3][1][1].get("v") in (True, 1):
                                     init_ok = init_ok or _has(guards(b, df[1]), lambda dd, ll: dd == "disc(dl_state)" and ll == "Init")
+                init_ok = init_ok or in_variant(b, c.block, "dl_state", "Init", g)
                 r.check(init_ok and not kinds, key + "/only-before-link", c.loc(), "a consumer waits in awaiting_linked exactly when dl_state is Init (nothing has been sent to it)",
                         "awaiting_linked.push is not restricted to dl_state == Init")
                 continue
@@ -279,7 +334,19 @@ def run(ctx):
         c_so = [c for c in rd.calls if c.name == "sync_only" and c.is_fn("downlink::sync_only")]
         if len(c_so) != 1:
             raise AnchorMissing("read_task: expected one sync_only call, found %d" % len(c_so))
-        arm_tests = [(d, l) for d, l, _ in dom_guards(rd, c_so[0].block) if not d.startswith("disc(") and "SINGLE_FRAME_STATE" not in d and d != "sync_event" and not re.match(r"^_\d+\.1$", d) and d != "is_active"]
+        # a test tells a late joiner apart only if what it tests is computed from something written when a consumer attaches (the NewConsumer arm):
+        # the event flag, the frame-kind constant and anything hoisted from them say nothing about who is waiting
+        attach_blocks = {x for x in range(rd.n) if not rd.is_cleanup(x) and any(d.startswith("disc(") and l == "NewConsumer" for d, l, _ in dom_guards(rd, x))}
+        if not attach_blocks:
+            raise AnchorMissing("read_task: no arm for a new consumer")
+        arm_tests = []
+        for d, l, sb in dom_guards(rd, c_so[0].block):
+            t_ = rd.term(sb)
+            if d.startswith("disc(") or t_.get("k") != "switch":
+                continue
+            deps = _data_deps(rd, t_["discr"])
+            if any(df[1] in attach_blocks for x in deps for df in rd.defs.get(x, ())):
+                arm_tests.append((d, l))
         pushes = [c for v, c, gb in _pushes(so) if v == "registered"]
         if len(pushes) != 1:
             raise AnchorMissing("sync_only: expected one push into registered, found %d" % len(pushes))
